@@ -297,6 +297,13 @@ class CFG:
         self.exit = d['exit']
         self.blocks = {b['id']: b for b in d['blocks']}
         self.succ = {b['id']: [s for s in b['succ'] if s is not None] for b in d['blocks']}
+        # the failing edge of an assert() expansion (towards the noreturn __assert_fail block) does not exist in the
+        # shipped NDEBUG library: path rules run over facts extracted with -UNDEBUG must not count it as a way out
+        for b in d['blocks']:
+            if b.get('am'):
+                keep = [s for s in self.succ[b['id']] if not self.blocks[s].get('noreturn')]
+                if keep and len(keep) < len(self.succ[b['id']]):
+                    self.succ[b['id']] = keep
         self.pred = {i: [] for i in self.blocks}
         for i, ss in self.succ.items():
             for s in ss:
@@ -453,6 +460,9 @@ class CFG:
                 continue
             b = self.blocks[a]
             if b.get('tc') is None or len(b['succ']) != 2:
+                continue
+            if b.get('am'):
+                # the expansion of assert(): exists only in a build without NDEBUG and establishes nothing for the shipped library
                 continue
             s_true, s_false = b['succ']
             if s_true is None or s_false is None or s_true == s_false:
